@@ -117,12 +117,12 @@ PROPS = {
                                 " | load engine: LoadSuccesses + LoadFailures must equal the number of loader invocations of every case, joiners (Get and single-key BulkGet callers of an in-flight load) counting nothing",
                 assumptions=SEQ_ASSUME + ["hit/miss/load counters are compared sequentially only"]),
     "C18": dict(
-        engines=[SKETCH],
-        rule="sketch engine: per case one capacity from a boundary list (0..2^16+1), random/skewed key streams, "
+        engines=[SKETCH, MAINT],
+        rule="(admission in situ: the maint engine below replays every eviction pass on the extracted Policy/Sketch model, so which of candidate and victim leaves - and which candidate is compared next - must be the model's) sketch engine: per case one capacity from a boundary list (0..2^16+1), random/skewed key streams, "
              "explicit and natural resets, ensureCapacity calls; entire table/size/sampleSize compared with the "
              "extracted model after every call; distinct_nontrivial = distinct (estimate, recorded) and "
-             "(admit, candFreq, victimFreq) combinations observed with recorded > 0",
-        assumptions=["the key hasher (maphash) is an arbitrary function: raw hashes are read from the implementation and fed to the model",
+             "(admit, candFreq, victimFreq) combinations observed with recorded > 0 | " + MAINT_RULE,
+        assumptions=MAINT_ASSUME + ["the key hasher (maphash) is an arbitrary function: raw hashes are read from the implementation and fed to the model",
                      "math/rand output of policy.rand is an input (injected)"],
     ),
 }
